@@ -29,9 +29,9 @@ func TestVerif_C01(t *testing.T) {
 			kit.JournalDone()
 		}()
 		t.Repeat(map[string]func(*rapid.T){
-			"batch": func(t *rapid.T) { g.t = t; g.applyBatch(g.genBatchOp()) },
+			"batch":         func(t *rapid.T) { g.t = t; g.applyBatch(g.genBatchOp()) },
 			"rejectedBatch": g.rejectedBatchAction(),
-			"txn":   func(t *rapid.T) { g.t = t; g.applyTxn(g.genTxnOp()) },
+			"txn":           func(t *rapid.T) { g.t = t; g.applyTxn(g.genTxnOp()) },
 			"pagedRead": func(t *rapid.T) {
 				g.t = t
 				op := Op{K: "pagedRead", DS: rapid.SampledFrom(g.names).Draw(t, "ds"), Limits: kit.GenLimits(t, true), Inv: rapid.Bool().Draw(t, "http")}
